@@ -981,7 +981,7 @@ func c07c(c *Ctx) {
 				okField := strings.HasSuffix(t, "."+b.field)
 				// taken exactly when no positive value was given: the guard is "<= 0" (1 is a value
 				// an author can ask for — one line, one pixel — and must not be overridden)
-				if isInstr && okKey && okField {
+				if isInstr && !dl.fromCallee && okKey && okField {
 					guard := ""
 					for _, l := range c.mustLits(fn, in.Block()) {
 						if strings.HasPrefix(l, "-(") && strings.Contains(l, " < ") && strings.Contains(l, b.name) && !strings.Contains(l, ".Fonts[") {
@@ -990,6 +990,28 @@ func c07c(c *Ctx) {
 					}
 					if guard != "" && !strings.HasPrefix(guard, "-(0 < ") {
 						bad = "the font-config fallback for " + b.name + " is taken under " + pretty(guard) + ", expected exactly when the parameter is not positive (-(0 < " + b.name + ")): an explicit positive value would be overridden by the font's"
+					}
+					// ... and whenever: relative to the place where the decision is made there is no
+					// further condition (a fallback taken only for boxes of more than one line leaves
+					// the other boxes without the font's cursor room)
+					if guard != "" {
+						var ref *ssa.BasicBlock
+						for _, bb := range fn.Blocks {
+							if len(bb.Preds) == 1 && (bb == in.Block() || bb.Dominates(in.Block())) && normLit(c.PC(fn).edgeLit(bb.Preds[0], bb)) == normLit(guard) {
+								ref = bb.Preds[0]
+							}
+						}
+						if ref != nil {
+							base := map[string]bool{}
+							for _, l := range c.mustLits(fn, ref) {
+								base[l] = true
+							}
+							for _, l := range c.mustLits(fn, in.Block()) {
+								if !base[l] && l != guard && normLit(l) != normLit(guard) {
+									bad = "the font-config fallback for " + b.name + " is taken only under the further condition " + pretty(l) + ": in the other cases a missing value is not replaced by the font's"
+								}
+							}
+						}
 					}
 					if guard == "" {
 						bad = "the font-config fallback for " + b.name + " is not guarded by a test that no positive value was given"
@@ -1396,6 +1418,19 @@ func c07d(c *Ctx) {
 						if x.Value != nil && x.Value.String() == "true" && !isBackslash(l.must) {
 							bad = "the escape flag is set although the character is not a backslash (under " + fmt.Sprint(prettyAll(l.must)) + ")"
 						}
+						// ... outside a brace group only: inside `{…}` a backslash is part of the
+						// control code, and a break code there must not end the word (or the line)
+						if x.Value != nil && x.Value.String() == "true" && isBackslash(l.must) {
+							outside := false
+							for _, ml := range l.must {
+								if regexpMust(`^\+\(phi\([^)]*\)(#\d+)? == 0\)$`).MatchString(ml) {
+									outside = true
+								}
+							}
+							if !outside {
+								bad = "the escape flag is set by a backslash also inside a brace group (no test of the group depth under " + fmt.Sprint(prettyAll(l.must)) + "): a break code inside `{…}` would split the group"
+							}
+						}
 					default:
 						if l.v == ssa.Value(ph) {
 							if !hasLit(l.must, "+"+pt) {
@@ -1622,6 +1657,23 @@ func c07e(c *Ctx) {
 				if find == nil || repl == nil {
 					okPcc, whyPcc = false, "cannot find the pattern search and the pattern removal in processControlCodes"
 				} else {
+					// the pattern is the documented shape of a control code: an opening brace, anything
+					// but a closing brace, a closing brace
+					if g := globalOrigin(find.Call.Args[0]); g != nil {
+						pat := ""
+						if initFn := g.Pkg.Func("init"); initFn != nil {
+							instrs(initFn, func(in ssa.Instruction) {
+								if st, ok := in.(*ssa.Store); ok && st.Addr == ssa.Value(g) {
+									if call, ok := st.Val.(*ssa.Call); ok && calleeName(call) == "regexp.MustCompile" {
+										pat, _ = strConst(call.Call.Args[0])
+									}
+								}
+							})
+						}
+						if pat != "{[^}]*}" && pat != `\{[^}]*\}` && pat != `\{[^}]*}` {
+							okPcc, whyPcc = false, "the control-code pattern is "+pretty(pat)+", expected {[^}]*} (everything between a brace and the next closing brace): codes it does not match are measured character by character"
+						}
+					}
 					if c.term(pcc, find.Call.Args[0]) != c.term(pcc, repl.Call.Args[0]) {
 						okPcc, whyPcc = false, "the codes that are measured and the codes that are removed are found with different patterns"
 					}
